@@ -14,6 +14,7 @@
 package signer
 
 import (
+	"bytes"
 	"context"
 	"crypto"
 	"crypto/x509"
@@ -220,6 +221,9 @@ func (s *PluginSigner) generateSignatureEnvelope(ctx context.Context, desc ocisp
 	if err = json.Unmarshal(content, &signedPayload); err != nil {
 		return nil, nil, fmt.Errorf("signed envelope payload can't be unmarshalled: %w", err)
 	}
+	if key, found := findDuplicateKey(content); found {
+		return nil, nil, fmt.Errorf("signed envelope payload has duplicate JSON member name %q", key)
+	}
 	if !isPayloadDescriptorValid(desc, signedPayload.TargetArtifact) {
 		return nil, nil, fmt.Errorf("during signing descriptor subject has changed from %+v to %+v", desc, signedPayload.TargetArtifact)
 	}
@@ -306,6 +310,58 @@ func areUnknownAttributesAdded(content []byte) []string {
 
 	unknownAttributes := append(getKeySet(descriptor), getKeySet(targetArtifactMap)...)
 	return unknownAttributes
+}
+
+// findDuplicateKey reports the first member name that occurs more than once in
+// the same JSON object of content, at any depth. JSON readers disagree on which
+// of two equally named members wins (encoding/json even merges repeated
+// objects), so such a payload does not have one meaning.
+func findDuplicateKey(content []byte) (string, bool) {
+	type frame struct {
+		keys      map[string]struct{} // nil for an array
+		expectKey bool
+	}
+	var stack []*frame
+	dec := json.NewDecoder(bytes.NewReader(content))
+	for {
+		tok, err := dec.Token()
+		if err != nil {
+			// io.EOF; malformed content was already rejected by json.Unmarshal
+			return "", false
+		}
+		var top *frame
+		if len(stack) > 0 {
+			top = stack[len(stack)-1]
+		}
+		if delim, ok := tok.(json.Delim); ok {
+			switch delim {
+			case '{':
+				stack = append(stack, &frame{keys: map[string]struct{}{}, expectKey: true})
+			case '[':
+				stack = append(stack, &frame{})
+			default: // '}' or ']' ends a value of the enclosing object, if any
+				stack = stack[:len(stack)-1]
+				if len(stack) > 0 && stack[len(stack)-1].keys != nil {
+					stack[len(stack)-1].expectKey = true
+				}
+			}
+			continue
+		}
+		if top == nil || top.keys == nil {
+			continue
+		}
+		if top.expectKey {
+			key, _ := tok.(string)
+			if _, dup := top.keys[key]; dup {
+				return key, true
+			}
+			top.keys[key] = struct{}{}
+			top.expectKey = false
+		} else {
+			// a scalar member value
+			top.expectKey = true
+		}
+	}
 }
 
 func getKeySet(inputMap map[string]interface{}) []string {
